@@ -562,8 +562,8 @@ theorem parseValue_ok (v : Bytes) (h : fieldValueOk v = true) : parseValue v = s
   simp [parseValue, this]
 
 
-theorem crlfLines_line (l : Bytes) (hl : ∀ b ∈ l, b ≠ 13) (cur rest : Bytes) :
-    crlfLines cur (l ++ 13 :: 10 :: rest) = (cur.reverse ++ l) :: crlfLines [] rest := by
+theorem crlfLines_line (w : Bool) (l : Bytes) (hl : ∀ b ∈ l, b ≠ 13) (cur rest : Bytes) :
+    crlfLines w cur (l ++ 13 :: 10 :: rest) = (cur.reverse ++ l) :: crlfLines w [] rest := by
   induction l generalizing cur with
   | nil => simp [crlfLines]
   | cons x xs ih =>
@@ -603,26 +603,21 @@ theorem splitOn_none (w : Bytes) (hw : ∀ b ∈ w, b ≠ 13) (cur : Bytes) :
     rw [ih (fun b hb => hw b (by simp [hb]))]
     simp
 
-theorem stripSpace_plain (v : Bytes) (hv : ∀ b ∈ v, b ≠ 13) (hs : v.head? ≠ some 32) :
-    stripSpace v = v := by
-  simp only [stripSpace, splitOn_none v hv [], List.reverse_nil, List.nil_append, List.head?_cons]
+theorem stripSpace_plain (v : Bytes) (_hv : ∀ b ∈ v, b ≠ 13) (hs : v.head? ≠ some 32) :
+    stripSpace true v = v := by
+  simp only [stripSpace, if_true]
   match v, hs with
   | [], _ => rfl
   | b :: r, hs =>
     have : b ≠ 32 := by simpa using hs
     split
     · rename_i r' heq
-      simp only [Option.some.injEq, List.cons.injEq] at heq
+      simp only [List.cons.injEq] at heq
       exact absurd heq.1 this
     · rfl
 
-theorem stripSpace_space (v : Bytes) (hv : ∀ b ∈ v, b ≠ 13) : stripSpace (32 :: v) = v := by
-  have h32 : ∀ b ∈ (32 : UInt8) :: v, b ≠ 13 := by
-    intro b hb
-    rcases List.mem_cons.1 hb with rfl | hb
-    · decide
-    · exact hv b hb
-  simp only [stripSpace, splitOn_none _ h32 [], List.reverse_nil, List.nil_append, List.head?_cons]
+theorem stripSpace_space (v : Bytes) (_hv : ∀ b ∈ v, b ≠ 13) : stripSpace true (32 :: v) = v := by
+  simp [stripSpace]
 
 theorem parseLine_ok (sp : Bool) (p : Pair) (hk : lowerNameOk p.1 = true)
     (hv : plainValueOk p.2 = true) :
@@ -633,7 +628,7 @@ theorem parseLine_ok (sp : Bool) (p : Pair) (hk : lowerNameOk p.1 = true)
   have hline : p.1 ++ (if sp then [58, 32] else [58]) ++ p.2 =
       p.1 ++ 58 :: ((if sp then [32] else []) ++ p.2) := by
     cases sp <;> simp
-  have hstrip : stripSpace ((if sp then [32] else []) ++ p.2) = p.2 := by
+  have hstrip : stripSpace true ((if sp then [32] else []) ++ p.2) = p.2 := by
     cases sp
     · simpa using stripSpace_plain p.2 hcr hv.2
     · simpa using stripSpace_space p.2 hcr
@@ -642,7 +637,7 @@ theorem parseLine_ok (sp : Bool) (p : Pair) (hk : lowerNameOk p.1 = true)
 
 theorem block_lines (sp : Bool) (ps : List Pair)
     (h : ∀ p ∈ ps, lowerNameOk p.1 = true ∧ plainValueOk p.2 = true) :
-    crlfLines [] (trailersBlock sp ps) =
+    crlfLines true [] (trailersBlock sp ps) =
       ps.map (fun p => p.1 ++ (if sp then [58, 32] else [58]) ++ p.2) := by
   induction ps with
   | nil => simp [trailersBlock, crlfLines]
@@ -660,7 +655,7 @@ theorem block_lines (sp : Bool) (ps : List Pair)
     have e : trailersBlock sp (p :: ps) =
         (p.1 ++ (if sp then [58, 32] else [58]) ++ p.2) ++ 13 :: 10 :: trailersBlock sp ps := by
       simp [trailersBlock, lineOfSp, List.flatMap_cons]
-    rw [e, crlfLines_line _ hl, ih (fun q hq => h q (by simp [hq]))]
+    rw [e, crlfLines_line true _ hl, ih (fun q hq => h q (by simp [hq]))]
     simp
 
 theorem mapOpt_map {α β : Type} (f : α → Option β) (g : β → α) : ∀ (l : List β),
@@ -1432,7 +1427,7 @@ theorem parseLine_any (sp : Bool) (p : Pair) (hk : anyCaseNameOk p.1 = true)
   have hline : p.1 ++ (if sp then [58, 32] else [58]) ++ p.2 =
       p.1 ++ 58 :: ((if sp then [32] else []) ++ p.2) := by
     cases sp <;> simp
-  have hstrip : stripSpace ((if sp then [32] else []) ++ p.2) = p.2 := by
+  have hstrip : stripSpace true ((if sp then [32] else []) ++ p.2) = p.2 := by
     cases sp
     · simpa using stripSpace_plain p.2 hcr hv.2
     · simpa using stripSpace_space p.2 hcr
@@ -1442,7 +1437,7 @@ theorem parseLine_any (sp : Bool) (p : Pair) (hk : anyCaseNameOk p.1 = true)
 open Spec.GrpcWeb (anyCaseNameOk lowerName) in
 theorem block_lines_any (sp : Bool) (ps : List Pair)
     (h : ∀ p ∈ ps, anyCaseNameOk p.1 = true ∧ plainValueOk p.2 = true) :
-    crlfLines [] (trailersBlock sp ps) =
+    crlfLines true [] (trailersBlock sp ps) =
       ps.map (fun p => p.1 ++ (if sp then [58, 32] else [58]) ++ p.2) := by
   induction ps with
   | nil => simp [trailersBlock, crlfLines]
@@ -1460,7 +1455,7 @@ theorem block_lines_any (sp : Bool) (ps : List Pair)
     have e : trailersBlock sp (p :: ps) =
         (p.1 ++ (if sp then [58, 32] else [58]) ++ p.2) ++ 13 :: 10 :: trailersBlock sp ps := by
       simp [trailersBlock, lineOfSp, List.flatMap_cons]
-    rw [e, crlfLines_line _ hl, ih (fun q hq => h q (by simp [hq]))]
+    rw [e, crlfLines_line true _ hl, ih (fun q hq => h q (by simp [hq]))]
     simp
 
 theorem mapOpt_map_fun {α β γ : Type} (f : α → Option γ) (g : β → α) (k : β → γ) :
